@@ -486,7 +486,7 @@ class Runner:
         import dendropy
 
         def fn():
-            cm = dendropy.DnaCharacterMatrix.get(schema=self.schema, **self.src(how))
+            cm = dendropy.DnaCharacterMatrix.get(schema=self.schema, **self.src(how), **self.kw)
             return dump_matrix(cm)
         return self.guard(fn)
 
@@ -709,7 +709,8 @@ def oracle_run(case, run):
     cmp_flat("TreeList.get(path=)", run["list_path"], flat, True)
     same_ns = not case["ns0"]
     Rd = run["read"]
-    cmp_flat("TreeList.read", Rd, flat, same_ns)
+    if same_ns:
+        cmp_flat("TreeList.read", Rd, flat, True)
     if not is_err(Rd) and Rd["returned"] != len(Rd["rich"]):
         viol("TreeList.read returned %d for %d trees added" % (Rd["returned"], len(Rd["rich"])), "read-count")
     # the one-at-a-time iterator (namespace pre-populated with ns0, like TreeList.read)
@@ -717,10 +718,19 @@ def oracle_run(case, run):
         Y = run[name]
         route = "Tree.yield_from_files" + ("(file object)" if name == "yield_file" else "")
         if Y["end"] is None:
-            cmp_flat(route, Y, flat, same_ns)
-            if not is_err(Rd) and (Rd["taxa"] != Y["taxa"] or Rd["ns"] != Y["ns"]) and len(Rd["rich"]) == len(Y["rich"]):
-                viol("TreeList.read and the iterator, given the same namespace, attach different taxa: %s in %s vs %s in %s"
-                     % (Rd["taxa"], Rd["ns"], Y["taxa"], Y["ns"]), "read-vs-yield:taxa")
+            if same_ns:
+                cmp_flat(route, Y, flat, True)
+            elif flat is None and valid:
+                viol("%s fails with %s but %s delivers %d trees" % (ref_name, REF["msg"], route, len(Y["rich"])), "ref-error-vs-yield")
+            if is_err(Rd):
+                err_mismatch("TreeList.read", Rd, "%s into the same namespace delivers %d trees" % (route, len(Y["rich"])), None)
+            else:
+                for d in diff_lists(Rd["rich"], Y["rich"]):
+                    viol("TreeList.read and %s, given the same namespace, differ in %s" % (route, d), "read-vs-yield:" + d)
+                if (Rd["taxa"] != Y["taxa"] or Rd["ns"] != Y["ns"]) and len(Rd["rich"]) == len(Y["rich"]):
+                    viol("TreeList.read and the iterator, given the same namespace, attach different taxa: %s in %s vs %s in %s"
+                         % (Rd["taxa"], Rd["ns"], Y["taxa"], Y["ns"]),
+                         "reader-not-attached:nexml-taxa" if case["schema"] == "nexml" else "read-vs-yield:taxa")
         else:
             if flat is not None:
                 err_mismatch(route, Y["end"], "%s delivers %d trees" % (ref_name, len(flat["rich"])), None)
@@ -737,7 +747,8 @@ def oracle_run(case, run):
                 viol("two reads of the same text into one list differ in %s" % d, "read-twice:" + d)
             if R2["first"]["taxa"] != R2["taxa"]:
                 viol("two reads into one namespace attach equal labels to different taxa: %s vs %s (namespace %s)"
-                     % (R2["first"]["taxa"], R2["taxa"], R2["ns"]), "read-twice:taxa")
+                     % (R2["first"]["taxa"], R2["taxa"], R2["ns"]),
+                     "reader-not-attached:nexml-taxa" if case["schema"] == "nexml" else "read-twice:taxa")
     # DataSet.get without a namespace: one namespace per TAXA block, so taxa are compared by label only
     D = run["dataset"]
     if case["schema"] != "newick":
@@ -967,6 +978,25 @@ def lower_pairs(strings):
     return sorted(tbl.items())
 
 
+_VARIANTS = {}
+
+
+def variants():
+    """which form of the two sites with a recorded finding the working tree has (Model/C13Model.v,
+    Section Routes: v_attach, v_keep_label) - decided by replaying the findings on the implementation"""
+    if not _VARIANTS:
+        import dendropy
+        doc = FIXED_DOCS[1][1]          # two TAXA blocks, LINKed TREES blocks
+        try:
+            dendropy.TreeList.get(data=doc, schema="nexus")
+            _VARIANTS["attach"] = True
+        except Exception:
+            _VARIANTS["attach"] = False
+        t = dendropy.Tree.get(data=FIXED_DOCS[0][1], schema="nexus")
+        _VARIANTS["keep_label"] = t.label == "foo"
+    return _VARIANTS["attach"], _VARIANTS["keep_label"]
+
+
 def to_coq(case, obs):
     _SK_NAMES.clear()
     body = to_coq_body(case, obs)
@@ -1000,7 +1030,8 @@ def to_coq_body(case, obs):
                        "(OBlocks %s)" % (c_err(D) if is_err(D) else "(Ok [%s])" % ";".join(c_sks(b["sk"]) for b in D["blocks"]))))
     strings = [t[0] for t in toks] + list(case["ns0"])
     low = "[" + ";".join("(%d,%d)" % p for p in lower_pairs(strings)) + "]"
-    return "(mkCase %s %s [%s] %s [%s])" % (cbool(case["schema"] == "nexus"), low, ";".join(c_token(t) for t in toks),
+    va, vk = variants()
+    return "(mkCase %s %s %s %s [%s] %s [%s])" % (cbool(va), cbool(vk), cbool(case["schema"] == "nexus"), low, ";".join(c_token(t) for t in toks),
                                             c_end(end), ";".join("(%s, %s)" % r for r in routes))
 
 
@@ -1062,6 +1093,60 @@ def fixed_cases():
     return out
 
 
+def exhaustive_cases():
+    """small scopes, every combination:
+    Newick: every sequence of <= 3 statements over 3 statement forms x 3 separators, x 2 document endings;
+    NEXUS: TAXA block (absent / plain / titled + LINK) x first TREES block (0-2 trees, TRANSLATE or not,
+    rooting comment or not) x second TREES block (absent or the same choices)"""
+    import itertools
+    out = []
+
+    def mk(schema, doc, nst, **feats):
+        f = {"schema": schema, "nstmts": nst, "exhaustive": True}
+        f.update(feats)
+        out.append({"schema": schema, "doc": doc, "feats": f, "kw2": {}, "ns0": [], "array_offset": 0})
+
+    stm = ["(a,b)", "[&R] ((a:1.0,b:2.0)x:0.5,c)", "[&U][w] a"]
+    seps = [";", ";\n", ";; [c]\n"]
+    for n in range(0, 4):
+        for combo in itertools.product(itertools.product(stm, seps), repeat=n):
+            for end in ("", "\n"):
+                mk("newick", "".join(a + b for a, b in combo) + end, n)
+    taxa_opts = [None, "plain", "titled"]
+    block_opts = [(nt, tr, rc) for nt in (0, 1, 2) for tr in (False, True) for rc in (False, True)]
+
+    def block(opt, title, start):
+        nt, tr, rc = opt
+        s = "BEGIN TREES;\n"
+        if title:
+            s += "  LINK TAXA = %s;\n" % title
+        names = {"a": "a", "b": "b", "c": "c"}
+        if tr:
+            s += "  TRANSLATE 1 a, 2 b, 3 c;\n"
+            names = {"a": "1", "b": "2", "c": "3"}
+        for i in range(nt):
+            body = "(%s,(%s,%s))" % (names["a"], names["b"], names["c"]) if i == 0 else "(%s:1.0,%s:2.5)" % (names["c"], names["a"])
+            s += "  TREE t%d = %s%s;\n" % (start + i, "[&R] " if (rc and i == 0) else "", body)
+        return s + "END;\n", nt
+    for tx in taxa_opts:
+        for b1 in block_opts:
+            for b2 in [None] + block_opts:
+                doc = "#NEXUS\n"
+                title = None
+                if tx:
+                    title = "Tx" if tx == "titled" else None
+                    doc += "BEGIN TAXA;\n%s  DIMENSIONS NTAX=3;\n  TAXLABELS a b c;\nEND;\n" % ("  TITLE Tx;\n" if title else "")
+                t1, n1 = block(b1, title, 1)
+                doc += t1
+                n2 = 0
+                if b2 is not None:
+                    t2, n2 = block(b2, title, n1 + 1)
+                    doc += t2
+                mk("nexus", doc, n1 + n2, taxa_blocks=1 if tx else 0, trees_blocks=1 if b2 is None else 2,
+                   translate=b1[1] or bool(b2 and b2[1]), link=bool(title))
+    return out
+
+
 def search(ctx, budget_s):
     t0 = time.time()
     rng = random.Random(ctx.seed + 1313)
@@ -1094,8 +1179,10 @@ def run(tier, seed, replay=None):
     ok = core.proof_stage(ctx, ["Props/C13.vo"])
     if not ok:
         core.broken_proof(ctx, search)
-    n = 260 if tier == "quick" else 4000
+    n = 260 if tier == "quick" else 3000
     cases = fixed_cases() + [gen_case(ctx.rng) for _ in range(n)]
+    if tier == "thorough":
+        cases.extend(exhaustive_cases())
     model_cases = [c for c in cases if c["schema"] != "nexml"]
 
     def observe_counted(case):
@@ -1124,4 +1211,6 @@ def run(tier, seed, replay=None):
                            "with hand-varied structure: Newick 0-6 statements (extra semicolons, comments, missing final semicolon); NEXUS 1-3 TREES blocks, 0-2 TAXA blocks "
                            "(TITLE/LINK), TRANSLATE, rooting/weight/metadata comments, unknown / CHARACTERS / SETS blocks, ENDBLOCK, statements after the last TREE, "
                            "truncated documents; every route run on the implementation (data=, file=, path=), Tree.get and TreeList.get for sampled (collection_offset, tree_offset) "
-                           "incl. None, negative and out of range; a case is non-trivial when the document has >= 2 tree statements; distinct by full case content")
+                           "incl. None, negative and out of range; thorough adds exhaustive small scopes (every Newick document of <= 3 statements over 3 statement forms x 3 separators x 2 endings; "
+                           "every NEXUS document over TAXA block absent/plain/titled+LINK x two TREES blocks with 0-2 trees, TRANSLATE or not, rooting comment or not); "
+                           "a case is non-trivial when the document has >= 2 tree statements; distinct by full case content")
